@@ -29,6 +29,13 @@
 namespace tbox {
 namespace alarm {
 
+WorkdayAlarm::~WorkdayAlarm() {
+  //! 基类析构时已无法调到本类的 onDisable()；另外 enable() 或 refresh() 找不到下一个时间点时，
+  //! 订阅关系也会保留。所以必须在这里退订，否则日历更新时会访问已释放的对象
+  if (wp_calendar_ != nullptr)
+    wp_calendar_->unsubscribe(this);
+}
+
 bool WorkdayAlarm::initialize(int seconds_of_day, WorkdayCalendar *wp_calendar, bool workday) {
   if (state_ == State::kRunning) {
     LogWarn("alarm is running state, disable first");
